@@ -701,6 +701,10 @@ func checkC12(c *Ctx, r *Report) {
 		r.Rule("confirmation", "", 3)
 		r.Unk(name+"|success paths", m.Fn.Pos(), "no success path")
 	}
+	// what is compared is what the BMC sent: the three algorithm numbers are the low six bits
+	// of byte 4 of each payload (layout rule shared with C07/C08)
+	r.Rule("response-algorithm-layout", "the Open Session Response's authentication, integrity and confidentiality algorithm are decoded from bits [5:0] of the algorithm byte of their payloads", 4)
+	compareSpec(c, r, specsFor(responseSpecs, "OpenSessionRsp", "AuthenticationPayload", "IntegrityPayload", "ConfidentialityPayload"), "field", nil)
 	// recording
 	r.Rule("recorded", "the session records the negotiated algorithms and is built from hash/cipher objects constructed for exactly those algorithms", 5)
 	lit, _, _ := complitFieldsAlloc(m.Lit)
